@@ -5,10 +5,11 @@ from .spanbase import SpanProp, case_fields, parse_span, parse_pos
 class C17(SpanProp):
     id = 'C17'
     files = ['tephra-span/src/span.rs', 'tephra-span/src/position.rs']
-    rule = ('every text up to the tier bound over {a,TAB,LF,e2,w3}; per text all spans over its canonical positions '
+    rule = ('every text up to the tier bound over {a,TAB,LF,e2,w3} (CR instead of e2 under cr / crlf), plus every short text over {a, zero-width mark, CR, LF} under LF (equal page, different byte) and seeded texts whose positions are handed over in descending / shuffled order; per text all spans over its canonical positions '
             'and all ordered pairs of spans through enclose/union/intersect/minus/intersects/adjacent and contains '
             'for every position; non-trivial = text with >= 2 canonical positions; distinct by (text, metrics)')
     exhaustive = {'quick': True, 'thorough': True}
+    vary_order = False
     assumptions = ['span endpoints are canonical positions of one text (the property\'s quantifier)',
                    'model/spec tie is by this run\'s correspondence only']
 
@@ -24,6 +25,22 @@ class C17(SpanProp):
             for t in spangen.all_texts(alpha, maxlen):
                 n += 1
                 out.append(spangen.span_case('c%d' % n, le, tab, t, ['alg']))
+        # zero-width characters (a combining mark, a CR that is no line break under LF): two positions with the same line and
+        # column but different bytes - byte order and page order differ, so comparing pages instead of bytes shows
+        for t in spangen.all_texts(['a', 'z2', 'CR', 'LF'], 3 if tier == 'quick' else 4):
+            if 'z2' in t or 'CR' in t:
+                n += 1
+                out.append(spangen.span_case('c%d' % n, 'lf', 4, t, ['alg']))
+        # positions handed over in DESCENDING order: the harness builds its spans with Span::enclosing(P[i], P[j]), i <= j in the
+        # order given, so `enclosing` (and every operation built on it) must order its two arguments by byte itself
+        r = rng.fork('C17')
+        for i in range(40 if tier == 'quick' else 300):
+            t = spangen.random_text(r, ['a', 'TAB', 'LF', 'e2', 'w3', 'z2', 'CR'], 4)
+            le = r.choice(['lf', 'cr', 'crlf'])
+            bases = spangen.canon_positions(t, le, 4)
+            bases = list(reversed(bases)) if i % 2 == 0 else sorted(bases, key=lambda p: r.below(1000))
+            n += 1
+            out.append(spangen.span_case('c%d' % n, le, 4, t, ['alg'], bases=bases))
         return out
 
     def nontrivial(self, ct, it):
